@@ -208,7 +208,13 @@ def observe(tc, fc, text, exc_type, exc_msg, files):
             resp = cl.open(path=path, method=method, follow_redirects=False)
             statuses.append(resp.status_code)
             if method == 'GET' and path == '/':
-                body = resp.get_data(as_text=True)
+                # decoded the way a client does it: with the charset the response declares (ISO-8859-1 when it declares none)
+                ctype_ = resp.headers.get('Content-Type', '')
+                charset_ = ctype_.split('charset=')[1].split(';')[0].strip() if 'charset=' in ctype_ else 'latin-1'
+                try:
+                    body = resp.get_data().decode(charset_)
+                except (LookupError, UnicodeDecodeError):
+                    body = resp.get_data().decode('latin-1')
             # what the client receives is what Content-Length announces: a page cut short has lost its end
             clen = resp.headers.get('Content-Length')
             if clen is not None and method != 'HEAD' and resp.status_code == 200 and int(clen) != len(resp.get_data()):
